@@ -41,6 +41,18 @@ def entries():
     add("troty", 4, lambda a: b.troty(a[0], t=[a[1], a[2], a[3]]))
     add("trotz", 4, lambda a: b.trotz(a[0], t=[a[1], a[2], a[3]]))
     add("trotz/deg", 1, lambda a: b.trotz(a[0], "deg"))
+    # the translation as a NumPy array / tuple (the numeric path takes lists, tuples, 1-D, row and column arrays alike)
+    _ar = lambda v: np.array(v, dtype=object if _anysym(v) else float)     # noqa
+    add("trotx/t-array", 4, lambda a: b.trotx(a[0], t=_ar([a[1], a[2], a[3]])))
+    add("troty/t-array", 4, lambda a: b.troty(a[0], t=_ar([a[1], a[2], a[3]])))
+    add("trotz/t-array", 4, lambda a: b.trotz(a[0], t=_ar([a[1], a[2], a[3]])))
+    add("trotx/t-column", 4, lambda a: b.trotx(a[0], t=_ar([a[1], a[2], a[3]]).reshape(3, 1)))
+    add("trotz/t-tuple", 4, lambda a: b.trotz(a[0], t=(a[1], a[2], a[3])))
+    add("SE3.Ry/t-array", 4, lambda a: L.SE3.Ry(a[0], t=_ar([a[1], a[2], a[3]])).A)
+    add("transl/array", 3, lambda a: b.transl(_ar([a[0], a[1], a[2]])))
+    add("skew/array", 3, lambda a: b.skew(_ar([a[0], a[1], a[2]])))
+    add("skewa/array", 6, lambda a: b.skewa(_ar(list(a))))
+    add("delta2tr/array", 6, lambda a: b.delta2tr(_ar(list(a))))
     add("transl/scalars", 3, lambda a: b.transl(a[0], a[1], a[2]))
     add("transl/vector", 3, lambda a: b.transl([a[0], a[1], a[2]]))
     add("eul2r/vector", 3, lambda a: b.eul2r([a[0], a[1], a[2]]))
